@@ -237,7 +237,9 @@ def equalize_voxel_size(
     # Determine resulting shape of the resized image
     if voxel_size is None:
         voxel_size = min(image.voxel_size)
-    shape = tuple(int(d / voxel_size) for d in dimensions)
+    # NOTE: Round to the nearest number of voxels. Truncation is not robust with respect to
+    # round-off, e.g., 1.1 / (1.1 / 7) = 6.999999999999999.
+    shape = tuple(int(np.floor(d / voxel_size + 0.5)) for d in dimensions)
 
     # Perform resize
     interpolation = kwargs.get("interpolation")
